@@ -803,6 +803,24 @@ func (t *Tr) backEdgeCheck(b, h *ssa.BasicBlock, cond Term) {
 		}
 		t.addObl("inv-step", fmt.Sprintf("loop%d.%d", li.ord, k+1), b.Instrs[len(b.Instrs)-1].Pos(), and(t.reach[b], cond), g, "loop invariant preserved: "+inv.Text)
 	}
+	if t.ct != nil {
+		for k, cl := range t.ct.LoopBack {
+			if cl.Loop != fmt.Sprint(li.ord) {
+				continue
+			}
+			env := t.pointEnv(nil, nil)
+			g, err := env.boolExpr(cl.E)
+			if err != nil {
+				t.unsup("loop %d backedge requires %q: %v", li.ord, cl.Text, err)
+				continue
+			}
+			name := cl.Name
+			if name == "" {
+				name = fmt.Sprint(k + 1)
+			}
+			t.addObl("iter", fmt.Sprintf("loop%d.%s", li.ord, name), b.Instrs[len(b.Instrs)-1].Pos(), and(t.reach[b], cond), g, "at the end of every iteration: "+cl.Text)
+		}
+	}
 }
 
 // ---------------------------------------------------------------------------
